@@ -24,10 +24,35 @@ Cap == atoi(IOEnv.CAP)
 
 VARIABLES gi, stack, nodes, done, hist
 vars == <<gi, stack, nodes, done, hist>>
-G == Gs[gi]
+
+(* Slicing a protocol to a set of parties (language/parse/slice_parties.py with ignore_receivers: messages whose  *)
+(* sender is not kept are deleted): a deleted alternative disappears, a deleted part of a sequence is dropped, a  *)
+(* repetition of something deleted is deleted, a sequence / alternation with nothing left is deleted, and a rule   *)
+(* whose body is deleted is deleted wherever it is referenced (fixed point).  keep = <<>> means "not sliced".      *)
+DEL == [k |-> "del"]
+RECURSIVE Sl(_,_,_)
+Sl(n, P, dead) ==
+  CASE n.k = "msg" -> IF n.snd \in P THEN n ELSE DEL
+    [] n.k = "nt"  -> IF n.s \in dead THEN DEL ELSE n
+    [] n.k = "rep" -> LET b == Sl(n.xs[1], P, dead) IN IF b.k = "del" THEN DEL ELSE [n EXCEPT !.xs = <<b>>]
+    [] n.k \in {"alt", "cat"} ->
+         LET ks == SelectSeq([i \in 1..Len(n.xs) |-> Sl(n.xs[i], P, dead)], LAMBDA x : x.k # "del")
+         IN IF ks = <<>> THEN DEL ELSE [n EXCEPT !.xs = ks]
+    [] OTHER -> n
+RECURSIVE Dead(_,_,_,_)
+Dead(rules, P, dead, k) ==
+  LET d2 == { s \in DOMAIN rules : Sl(rules[s], P, dead).k = "del" } IN
+  IF d2 = dead \/ k = 0 THEN dead ELSE Dead(rules, P, d2, k - 1)
+SlicedRules(g) ==
+  IF g.keep = <<>> THEN g.rules
+  ELSE LET P == ToSet(g.keep)
+           dead == Dead(g.rules, P, {}, 10)
+       IN [s \in DOMAIN g.rules \ dead |-> Sl(g.rules[s], P, dead)]
+G == [gid |-> Gs[gi].gid, start |-> Gs[gi].start, rules |-> SlicedRules(Gs[gi])]
 
 Init == /\ gi \in 1..Len(Gs)
-        /\ stack = << [todo |-> << Gs[gi].rules[Gs[gi].start] >>] >>
+        /\ Gs[gi].start \in DOMAIN SlicedRules(Gs[gi])
+        /\ stack = << [todo |-> << SlicedRules(Gs[gi])[Gs[gi].start] >>] >>
         /\ nodes = 1 /\ done = FALSE /\ hist = <<>>
 
 Top == stack[Len(stack)]
